@@ -223,6 +223,7 @@ type qwStats struct {
 	ToFollower                                                                            int
 	OtherErrors                                                                           map[string]int
 	Probes                                                                                map[string]string
+	DupRows                                                                               int // rows of a statement already seen: a batch applied again after a try with unknown outcome
 }
 
 func queuedTrace(args []string) error {
@@ -510,9 +511,15 @@ func queuedRun(run int, dir string, nclients, nreqs, nfaults int, rec *qwRecorde
 			w.Write(e)
 		}
 		if !stuck[id] {
+			seen := map[[2]int64]bool{}
 			for _, v := range rows[0].Values {
 				if v.Parameters[0].GetS() != id {
 					continue
+				}
+				if k := [2]int64{v.Parameters[1].GetI(), v.Parameters[2].GetI()}; seen[k] {
+					st.DupRows++
+				} else {
+					seen[k] = true
 				}
 				w.Write(map[string]any{"ev": "row", "req": v.Parameters[1].GetI(), "k": v.Parameters[2].GetI(), "n": v.Parameters[3].GetI()})
 				st.Rows++
@@ -535,8 +542,8 @@ func queuedRun(run int, dir string, nclients, nreqs, nfaults int, rec *qwRecorde
 //   auth:    a cluster with credentials; a queued write accepted by a FOLLOWER is forwarded to the
 //            leader without credentials, and refused
 // Each probe posts the request, then a tagged INSERT with wait, and watches the node's consumer: the
-// queue is stuck when the batch it holds failed 6 times in a row with the same error while the same
-// leader was in place all along (count-based, no wall-clock judgement).  No faults are injected.
+// queue is stuck when the batch it holds failed 6 times in a row with the same error and that error is
+// not one a leader change can explain (count-based, no wall-clock judgement).  No faults are injected.
 func queuedProbes(dir string, rec *qwRecorder, w *ndWriter, st *qwStats, reqID *atomic.Int64) error {
 	rec.reset()
 	rec.mu.Lock()
@@ -607,11 +614,12 @@ func queuedProbes(dir string, rec *qwRecorder, w *ndWriter, st *qwStats, reqID *
 	go probe("auth", f, nil)
 	// watch both consumers
 	stuck := map[string]bool{}
-	leaderID := l.ID
+	transient := map[string]bool{"leader-not-found": true, "network": true, "not-leader": true, "leadership-lost": true,
+		"leadership-transfer": true, "not-ready": true, "mixed": true}
 	deadline := time.Now().Add(120 * time.Second)
 	for {
-		if cur := c.Leader(30 * time.Second); cur == nil || cur.ID != leaderID {
-			return errors.New("leadership moved during the probes (no faults are injected): undecided")
+		if c.Leader(60*time.Second) == nil {
+			return errors.New("no leader during the probes (no faults are injected): undecided")
 		}
 		rec.mu.Lock()
 		pending := 0
@@ -619,7 +627,7 @@ func queuedProbes(dir string, rec *qwRecorder, w *ndWriter, st *qwStats, reqID *
 			if rec.lastDone[n.ID] >= rec.lastWrite[n.ID] && rec.lastWrite[n.ID] > 0 {
 				continue
 			}
-			if rec.consecFail[n.ID] >= 6 && rec.failClass[n.ID] != "mixed" {
+			if rec.consecFail[n.ID] >= 6 && !transient[rec.failClass[n.ID]] {
 				stuck[n.ID] = true
 				continue
 			}
